@@ -5,3 +5,6 @@ import GSV.Ctl
 import GSV.Gen.Summator
 import GSV.Gen.Krigesum
 import GSV.Gen.Estimator
+import GSV.Lemmas.Ctl
+import GSV.Props.KernelSummate
+import GSV.Props.KernelKrige
